@@ -109,6 +109,9 @@ func (m *Machine) callVx(fn *ssa.Function, a []Value) Value {
 	case "vxAssert":
 		m.Assert(a[0], m.mustStr(a[1], "vxAssert id"), "")
 		return nil
+	case "vxKnown":
+		m.Known(a[0], m.mustStr(a[1], "vxKnown id"))
+		return nil
 	case "vxReach":
 		m.reached[m.mustStr(a[0], "vxReach id")] = true
 		return nil
